@@ -94,6 +94,7 @@ type poolRig struct {
 	cleanup  bool
 	finishCh chan struct{}
 	sels     []selRec
+	dirMask  int // directed sweep: bit i set = backend i available
 	rrCount  map[string][]int // round robin: counts per availability vector window
 	rrVec    string
 	flips    int
@@ -438,6 +439,10 @@ func (r *poolRig) reqByID(id string) *preq {
 	return nil
 }
 
+// seeds below poolDirected (C05) are the systematic selection sweep:
+// 7 policies x sum over n=1..6 of (2^n - 1) availability sets
+const poolDirected = 7 * 120
+
 var poolPolicies = []string{"random", "least_conn", "round_robin", "ip_hash", "first", "uri_hash", "header"}
 
 func runPool(mode string) sim.RigFunc {
@@ -485,6 +490,25 @@ func runPool(mode string) sim.RigFunc {
 		// (intervals that divide no fail_timeout: a retry poll and a failure expiry
 		// started in the same instant must never be due at the same instant, the
 		// order in which two such timers fire is not defined)
+		directed := mode == "C05" && c.T.Seed < poolDirected
+		if directed {
+			// systematic sweep: policy x pool size 1..6 x every non-empty set of available backends
+			idx := int(c.T.Seed)
+			r.policy = poolPolicies[idx%len(poolPolicies)]
+			idx /= len(poolPolicies)
+			n := 1
+			for ; n <= 6; n++ {
+				if idx < (1<<n)-1 {
+					break
+				}
+				idx -= (1 << n) - 1
+			}
+			r.n = n
+			r.dirMask = idx + 1
+			r.maxConns, r.maxFails, r.failTimeout, r.tryDuration, r.retryMode = 0, 1, 0, 0, ""
+			r.static = true
+			c.Params["directed"] = fmt.Sprintf("%s/pool=%d/available=%0*b", r.policy, r.n, r.n, r.dirMask)
+		}
 		r.tryInterval = []time.Duration{7 * time.Millisecond, 93 * time.Millisecond, 251 * time.Millisecond}[st.Draw(3)]
 		r.inflight = make([]int, r.n)
 		r.maxInfl = make([]int, r.n)
@@ -539,6 +563,9 @@ func runPool(mode string) sim.RigFunc {
 			nreq += st.Draw(4)
 			c.MaxSteps = 500
 		}
+		if r.dirMask != 0 {
+			nreq = 6
+		}
 		c.Params["requests"] = nreq
 		for i := 0; i < nreq; i++ {
 			r.addReq(i)
@@ -558,6 +585,13 @@ func runPool(mode string) sim.RigFunc {
 			}
 			if len(r.hosts) != r.n {
 				panic(fmt.Sprintf("harness: expected %d hosts, got %d", r.n, len(r.hosts)))
+			}
+			if r.dirMask != 0 {
+				for i, h := range r.hosts {
+					if r.dirMask&(1<<i) == 0 {
+						atomic.StoreInt32(&h.Unhealthy, 1) // as the health checker would
+					}
+				}
 			}
 			r.started = true
 			<-r.finishCh
